@@ -140,6 +140,18 @@ def _m6():
     return cfg
 
 
+def _m6l():
+    """As M6, but the records of the two top-level buckets state their level
+    explicitly and differently from their name prefix: 'rack:0' / 'rack:1'
+    are PODS here, and the instances limit themselves to one per pod."""
+    cfg = _m6()
+    cfg['bucket_levels'] = {'rack:0': 'pod', 'rack:1': 'pod'}
+    lim = {'pod': 1, 'cell': 2}
+    for name in ('la', 'lb'):
+        cfg['templates'][name]['affinity_limits'] = lim
+    return cfg
+
+
 def configs(ctx):
     if ctx.quick:
         return [('K3-' + k, _k3(LIMITS[k]), 4, 0)
@@ -150,7 +162,8 @@ def configs(ctx):
              ('K6-cell1', _k6({'cell': 1}), 3, 0),
              ('K11-rack1', _k11({'rack': 1}), 3, 2),
              ('K11-pod1', _k11({'pod': 1}), 3, 2)] + \
-            [('M6', _m6(), 4, 0, _masterprop.MasterSpec)]
+            [('M6', _m6(), 4, 0, _masterprop.MasterSpec),
+             ('M6-levels', _m6l(), 3, 0, _masterprop.MasterSpec)]
     return [('K3-' + k, _k3(v), 6, 0) for k, v in LIMITS.items()] + \
         [('K3mv-pod2', _k3mv({'pod': 2}), 6, 0),
          ('K3mv-rack1cell2', _k3mv({'rack': 1, 'cell': 2}), 6, 0),
@@ -161,7 +174,8 @@ def configs(ctx):
          ('K11-rack1', _k11({'rack': 1}), 5, 3),
          ('K11-pod1', _k11({'pod': 1}), 5, 3),
          ('K11-cell1', _k11({'cell': 1}), 5, 3)] + \
-        [('M6', _m6(), 6, 0, _masterprop.MasterSpec)]
+        [('M6', _m6(), 6, 0, _masterprop.MasterSpec),
+         ('M6-levels', _m6l(), 5, 0, _masterprop.MasterSpec)]
 
 
 RULE = ('BFS over histories with capacity pressure on a 2x2 cell, affinity '
